@@ -3,6 +3,8 @@ package main
 import (
 	"sort"
 
+	"github.com/Syuparn/pangaea/evaluator"
+
 	"github.com/Syuparn/pangaea/object"
 )
 
@@ -38,5 +40,35 @@ func doSurface(rq *Req) *Resp {
 		out = append(out, e)
 	}
 	sort.Slice(out, func(i, j int) bool { return out[i].Name < out[j].Name })
-	return &Resp{ID: rq.ID, End: "ok", Extra: out}
+	// reachable property names of arbitrary receiver expressions (rq.Progs): own pairs along the prototype chain
+	var reach [][]string
+	for _, src := range rq.Progs {
+		names := map[string]bool{}
+		prog, err, ptxt := parseSrc(src, nil)
+		if err == nil && ptxt == "" {
+			func() {
+				defer func() { recover() }()
+				v := evaluator.Eval(prog, object.NewEnclosedEnv(it.constEnv))
+				for o, depth := v, 0; o != nil && depth < 20; o, depth = o.Proto(), depth+1 {
+					if po, ok := o.(*object.PanObj); ok && po.Pairs != nil {
+						for _, p := range *po.Pairs {
+							if k, ok := p.Key.(*object.PanStr); ok {
+								names[k.Value] = true
+							}
+						}
+					}
+					if o == object.BuiltInBaseObj {
+						break
+					}
+				}
+			}()
+		}
+		var ns []string
+		for n := range names {
+			ns = append(ns, n)
+		}
+		sort.Strings(ns)
+		reach = append(reach, ns)
+	}
+	return &Resp{ID: rq.ID, End: "ok", Extra: map[string]any{"builtins": out, "reach": reach}}
 }
